@@ -31,7 +31,7 @@ SPEC = {
     "assumptions": ["default recursion limit of the interpreter (not lowered)", "a per-process memory budget of 4 GiB for molecules within the tier's size bound (only enforced when the RSS monitor projects that it would be exceeded)", "sizes bounded by the tier (quick <= 5000 atoms, thorough <= 10000); a watchdog firing is inconclusive, not a violation"],
     "shards": {"quick": len(JOBS["quick"]), "thorough": len(JOBS["thorough"])},
     "monitors_required": ["c15_completion", "c15_depth_monitor", "c15_rss_monitor"],
-    "required_obs": {"quick": ["cov_depth_linear_family_ge_2000_atoms", "cov_components_ge_1000", "cov_atoms_ge_4000", "cov_complete_graph", "cov_single_atom", "cov_steering_families", "cov_molfile_route_v2000", "cov_molfile_route_v3000", "cov_molfile_route_full_width_coordinate_fields"]},
+    "required_obs": {"quick": ["cov_collection_line_with_hundreds_of_continuations", "cov_depth_linear_family_ge_2000_atoms", "cov_components_ge_1000", "cov_atoms_ge_4000", "cov_complete_graph", "cov_single_atom", "cov_steering_families", "cov_molfile_route_v2000", "cov_molfile_route_v3000", "cov_molfile_route_full_width_coordinate_fields"]},
     "watchdog_s": {"quick": 1500, "thorough": 7200},
 }
 
@@ -204,6 +204,39 @@ def molfile_route(ctx):
                                              "text_head": text[:600]}, {"family": fam, "n": n, "route": fmt})
 
 
+def collection_route(ctx):
+    """Files whose size-dependent part is ONE logical line: a highlight collection listing every atom and bond of a large molecule, continued over
+    hundreds of physical lines (the number of continuation lines of one logical line grows with the molecule, not with any atom or bond line)."""
+    import tucan.io.molfile_reader as mr
+    import tucan.canonicalization as c
+    import tucan.serialization as s
+    from ..oracles import ctab
+    import random as _r
+    for n, full in ((60, True), (1200, False), (4500, False)):
+        mol = G.family("polymer", n)
+        base = ctab.render_v3000(mol, ctab.V3Style(), _r.Random(0))
+        na, nb = len(mol.atoms), len(mol.bonds)
+        content = "MDLV30/HILITE ATOMS=(%d %s) BONDS=(%d %s)" % (na, " ".join(str(i) for i in range(1, na + 1)), nb, " ".join(str(i) for i in range(1, nb + 1)))
+        pieces = [content[k:k + 71] for k in range(0, len(content), 71)]
+        block = ["M  V30 BEGIN COLLECTION"] + ["M  V30 " + p + ("-" if k < len(pieces) - 1 else "") for k, p in enumerate(pieces)] + ["M  V30 END COLLECTION"]
+        text = base.replace("M  V30 END CTAB", "\n".join(block) + "\nM  V30 END CTAB")
+        assert text != base
+        ctx.evaluations += 1
+        ctx.mon("c15_completion")
+        try:
+            g = mr.graph_from_molfile_text(text)
+            if g.number_of_nodes() != na or g.number_of_edges() != nb:
+                raise AssertionError(f"read {g.number_of_nodes()} atoms / {g.number_of_edges()} bonds, file states {na} / {nb}")
+            if full and s.serialize_molecule(c.canonicalize_molecule(g)) != s.serialize_molecule(c.canonicalize_molecule(mr.graph_from_molfile_text(base))):
+                raise AssertionError("TUCAN string differs with / without the collection block")
+            ctx.maxi("max_continuation_lines_of_one_logical_line", len(pieces) - 1)
+            ctx.count("cov_collection_line_with_hundreds_of_continuations")
+        except BaseException as e:
+            ctx.violation("completion", {"what": f"reading a V3000 file whose collection line spans {len(pieces)} physical lines ended in {type(e).__name__}", "atoms": na, "message": str(e)[:200],
+                                         "deepest_frames": [f"{f.name}@{f.filename.split('/')[-1]}:{f.lineno}" for f in traceback.extract_tb(e.__traceback__)[-5:]]},
+                          {"family": "polymer", "n": n, "route": "collection"})
+
+
 MEMORY_BUDGET_MB = 4096  # stated resource ceiling per process for molecules within the tier's size bound
 
 
@@ -261,6 +294,7 @@ def small_sweep(ctx):
                 ctx.nontrivial((fam, res["atoms"]))
     ctx.obs["small_sweep_done"] = 1
     molfile_route(ctx)
+    collection_route(ctx)
 
 
 def run(ctx):
@@ -297,6 +331,12 @@ def replay(ctx, w):
         ctx.evaluations += 1
         if not r["ok"]:
             ctx.violation("completion:memory", {"what": f"pipeline ended in {r['exception']} during {r['stage']} within the memory budget", "family": fam, "atoms": n}, w["case"])
+        return
+    if w["case"].get("route") == "collection":
+        collection_route(ctx)
+        return
+    if w["case"].get("route") in ("v2000", "v3000"):
+        molfile_route(ctx)
         return
     fam, n = w["case"]["family"], w["case"]["n"]
     record(ctx, run_pipeline(ctx, G.family(fam, n), f"{fam}{n}"), fam, n)
